@@ -440,10 +440,12 @@ def representation_obligations(module, cls, mutator="set", constant_fields=()):
     for name, m in methods.items():
         if name in (mutator, "__init__"):
             continue
+        if any(isinstance(d_, ast.Name) and d_.id in ("staticmethod", "classmethod") for d_ in m.decorator_list):
+            continue                      # no receiver: its first parameter is an ordinary argument
         sn = m.args.args[0].arg if m.args.args else None
         for n in ast.walk(m):
             if isinstance(n, ast.Attribute) and isinstance(n.ctx, ast.Load) and isinstance(n.value, ast.Name) and n.value.id == sn \
-                    and n.attr not in methods:
+                    and n.attr not in methods and not n.attr.startswith("__"):
                 reads.setdefault(n.attr, set()).add(name)
     init = methods.get("__init__")
     init_calls_mut = init is not None and any(
